@@ -332,6 +332,8 @@ impl Prop for C18Prop {
         }
         let lens: std::collections::BTreeSet<usize> = scn.files.iter().map(|f| f.text.len()).collect();
         ctx.class(&format!("threads:{}", scn.threads));
+        ctx.class(if scn.via_dir { "form:directory-argument" } else { "form:list-of-files" });
+        ctx.class_if(scn.files.iter().any(|f| f.link), "has-symlinked-file");
         ctx.class(&format!("mode:{}", scn.mode));
         ctx.class_if(any_fail, "has-failing-file");
         Outcome::Pass {
